@@ -6,6 +6,8 @@ import (
 	"errors"
 	"fmt"
 	"math/rand/v2"
+	"os"
+	"path/filepath"
 	"regexp"
 	"sort"
 	"strings"
@@ -41,6 +43,8 @@ type Case struct {
 	Mount       string   // "", ok, refuse (remote destination only)
 	MountCands  []string // candidate repositories MountFrom returns (may repeat, may name repositories without the blob)
 	Depth       int      // ExtendedCopy* only (0: unlimited)
+	StaleFiles  bool     // see GenOpts.StaleFiles
+	FilterAnno  string   // ExtendedCopyGraph only: FilterAnnotation(key, nil) is installed (changes the set that is copied: accounting checks only)
 	RefIsDigest bool     // the source reference is the root's digest string
 	FilterAll   bool     // ExtendedCopy*: install FilterArtifactType with a match-all regex (exercises the filter listing path)
 	SubjectOnly bool     // the source exposes subject links only (registry): ancestors follow referrers
@@ -79,6 +83,8 @@ type GenOpts struct {
 	ManifestAsBlob bool // allow the C01 finding shape
 	RaceWriter     bool // allow a simulated concurrent writer on one node
 	Trees          bool // allow interior nodes of an unknown media type, traversed by a custom FindSuccessors (Copy / CopyGraph only)
+	StaleFiles     bool // file-store destination: longer files already sit at the names of titled blobs (left by an earlier session)
+	FullNameRef    bool // allow a source reference shaped like a full image name (registry/repository:tag) on non-registry stores
 	TitleClash     bool // allow two different blobs under one title (file-store destination must fail the copy)
 }
 
@@ -144,6 +150,10 @@ func GenCase(rng *rand.Rand, o GenOpts) *Case {
 	}
 	c.Conc = []int{0, 1, 2, 3, 8, 1 + rng.IntN(6)}[rng.IntN(6)]
 	c.SrcRef = "src-tag"
+	if o.FullNameRef && c.SrcKind != "remote" && c.DstKind != "remote" && rng.IntN(4) == 0 {
+		c.SrcRef = "registry.example.com/team/app:1.0" // what exported layouts commonly carry as reference name
+	}
+	c.StaleFiles = o.StaleFiles && c.DstKind == "file" && go_.Titles && rng.IntN(2) == 0
 	if rng.IntN(2) == 0 {
 		c.DstRef = "dst.tag-v2"
 	}
@@ -294,7 +304,7 @@ func (c *Case) Describe() map[string]any {
 	return map[string]any{
 		"api": c.API, "src": c.SrcKind, "dst": c.DstKind, "root": c.Root, "expected_root": c.Expect, "concurrency": c.Conc,
 		"src_ref": c.SrcRef, "dst_ref": c.DstRef, "map_root": c.MapRoot, "platform": c.Platform, "prepopulated": c.Prepop,
-		"ref_is_root_digest": c.RefIsDigest, "pre_tagged_node": c.PreTag, "racing_writer_node": c.RaceNode, "max_metadata_bytes": c.MaxMeta, "delay_max_us": c.Delay.Microseconds(), "delay_seed": c.Seed, "mount": c.Mount,
+		"depth": c.Depth, "filter_annotation_key": c.FilterAnno, "ref_is_root_digest": c.RefIsDigest, "pre_tagged_node": c.PreTag, "racing_writer_node": c.RaceNode, "max_metadata_bytes": c.MaxMeta, "delay_max_us": c.Delay.Microseconds(), "delay_seed": c.Seed, "mount": c.Mount,
 		"dag": c.G.Describe(c.Root),
 	}
 }
@@ -313,6 +323,17 @@ func (c *Case) Setup(ctx context.Context) (*Env, error) {
 		return nil, err
 	}
 	g := c.G
+	if c.StaleFiles && e.Dst.Dir != "" {
+		for _, nd := range g.Nodes {
+			if nd.Kind == gen.Blob && nd.ID%2 == 0 && nd.ID%4 != 0 {
+				stale := append(append([]byte{}, nd.Bytes...), []byte("-- stale tail of an older, longer version of this file --")...)
+				if err := os.WriteFile(filepath.Join(e.Dst.Dir, fmt.Sprintf("blob-%d.bin", nd.ID)), stale, 0o644); err != nil {
+					e.Close()
+					return nil, fmt.Errorf("stale file: %w", err)
+				}
+			}
+		}
+	}
 	if err := gen.PushAll(ctx, e.Src.Target, g, g.TopoChildrenFirst(), ignoreExists); err != nil {
 		e.Close()
 		return nil, fmt.Errorf("populate source: %w", err)
@@ -387,6 +408,9 @@ func (c *Case) Run(ctx context.Context, e *Env) (ocispec.Descriptor, error) {
 		eopts := oras.ExtendedCopyGraphOptions{CopyGraphOptions: gopts, Depth: c.Depth}
 		if c.FilterAll {
 			eopts.FilterArtifactType(regexp.MustCompile(""))
+		}
+		if c.FilterAnno != "" {
+			eopts.FilterAnnotation(c.FilterAnno, nil)
 		}
 		return g.Nodes[c.Root].Desc, oras.ExtendedCopyGraph(ctx, e.WS, e.WD, g.Nodes[c.Root].Desc, eopts)
 	case "ExtendedCopy":
